@@ -19,6 +19,7 @@ import (
 	"go/ast"
 	"go/token"
 	"go/types"
+	"golang.org/x/tools/go/ssa"
 	"sort"
 	"strings"
 
@@ -260,4 +261,52 @@ func captureEdits(in *inliner, p *packages.Package, fd *ast.FuncDecl, fname stri
 		return true
 	})
 	return edits, notes
+}
+
+// detachedAPI: fn (or the function it is nested in) is not a function of the reference tree and nothing of the
+// library calls it - a new entry point for the program that uses the library, which Parse, Dispatch, Run and the
+// definers never reach. What such a function merely reads or computes cannot change what the reference entry points
+// do (what it writes is judged by the state-writer rules as for any other function).
+func (w *World) detachedAPI(fn *ssa.Function) bool {
+	root := fn
+	for root.Parent() != nil {
+		root = root.Parent()
+	}
+	if _, known := baselineFuncs[short(root)]; known {
+		return false
+	}
+	for _, g := range w.Funcs {
+		gr := g
+		for gr.Parent() != nil {
+			gr = gr.Parent()
+		}
+		if gr == root {
+			continue
+		}
+		for _, c := range allCalls(g) {
+			if c.Common().StaticCallee() == root {
+				return false
+			}
+			// the function used as a value
+			for _, a := range c.Common().Args {
+				if a == ssa.Value(root) {
+					return false
+				}
+			}
+		}
+		bad := false
+		eachInstr(g, func(in ssa.Instruction) {
+			for _, op := range in.Operands(nil) {
+				if op != nil && *op == ssa.Value(root) {
+					if _, isCall := in.(ssa.CallInstruction); !isCall {
+						bad = true
+					}
+				}
+			}
+		})
+		if bad {
+			return false
+		}
+	}
+	return true
 }
